@@ -355,6 +355,13 @@ func (h *Handshaker) ReplayBlocks(
 		}
 	}
 
+	// The height of the block that follows the state: the chain's initial height when
+	// no block has been applied yet (it may be greater than 1).
+	nextBlockHeight := stateBlockHeight + 1
+	if stateBlockHeight == 0 {
+		nextBlockHeight = state.InitialHeight
+	}
+
 	// First handle edge cases and constraints on the storeBlockHeight and storeBlockBase.
 	switch {
 	case storeBlockHeight == 0:
@@ -377,9 +384,9 @@ func (h *Handshaker) ReplayBlocks(
 		// the state should never be ahead of the store (this is under tendermint's control)
 		panic(fmt.Sprintf("StateBlockHeight (%d) > StoreBlockHeight (%d)", stateBlockHeight, storeBlockHeight))
 
-	case storeBlockHeight > stateBlockHeight+1:
+	case storeBlockHeight > nextBlockHeight:
 		// store should be at most one ahead of the state (this is under tendermint's control)
-		panic(fmt.Sprintf("StoreBlockHeight (%d) > StateBlockHeight + 1 (%d)", storeBlockHeight, stateBlockHeight+1))
+		panic(fmt.Sprintf("StoreBlockHeight (%d) > StateBlockHeight + 1 (%d)", storeBlockHeight, nextBlockHeight))
 	}
 
 	var err error
@@ -398,7 +405,7 @@ func (h *Handshaker) ReplayBlocks(
 			return appHash, nil
 		}
 
-	} else if storeBlockHeight == stateBlockHeight+1 {
+	} else if storeBlockHeight == nextBlockHeight {
 		// We saved the block in the store but haven't updated the state,
 		// so we'll need to replay a block using the WAL.
 		switch {
